@@ -286,3 +286,164 @@ Section Abs.
     rewrite <- (map_length entry_of), entries_of_children. exact Hfuel.
   Qed.
 End Abs.
+
+(* ------------------------------------------------------------------ the view and DB.Get agree *)
+(* A pure L1 statement: the pairs an iterator at sequence number s must walk (live_pairs of the entries of
+   the state in internal-key order) are exactly the (key, value) for which the read path lsm_get - what
+   DB.Get / Snapshot.Get compute (property C01) - finds that value.  Needs, beyond wf_state: no two stored
+   entries share user key AND sequence number (each sequence number is given to one write), kinds are
+   deletion or value. *)
+Section ViewGet.
+  Variable c : comparer.
+  Hypothesis ok : comparer_ok c.
+  Variable p : kparams.
+  Hypothesis pok : kparams_ok p.
+
+  Lemma find_sorted_min {K V} (f : K -> K -> comparison) (g : K * V -> bool) : forall (l : list (K * V)) e,
+    sorted_kv f l -> find g l = Some e -> In e l /\ g e = true /\ forall e', In e' l -> g e' = true -> e' = e \/ f (fst e) (fst e') = Lt.
+  Proof.
+    induction l as [|x l IH]; intros e Hs Hf; [discriminate|]. cbn [find] in Hf.
+    apply StronglySorted_inv in Hs as [Hs Hall]. destruct (g x) eqn:Eg.
+    - injection Hf as <-. split; [left; reflexivity|]. split; [exact Eg|].
+      intros e' [<-|He'] _; [left; reflexivity|right]. rewrite Forall_forall in Hall. apply (Hall e' He').
+    - destruct (IH e Hs Hf) as (H1 & H2 & H3). split; [right; exact H1|]. split; [exact H2|].
+      intros e' [<-|He'] Hg; [congruence|apply H3; assumption].
+  Qed.
+
+  Lemma find_none_all {A} (g : A -> bool) (l : list A) : find g l = None -> forall x, In x l -> g x = false.
+  Proof.
+    induction l as [|y l IH]; intros Hf x Hx; [destruct Hx|]. cbn [find] in Hf. destruct (g y) eqn:E; [discriminate|].
+    destruct Hx as [<-|Hx]; [exact E|apply IH; assumption].
+  Qed.
+
+  Lemma newest_max k s : forall l acc a, newest c k s l acc = Some a ->
+    (forall x, In x l -> Lsm.vis c k s x = true -> (e_seq x <= e_seq a)%N) /\
+    (forall y, acc = Some y -> (e_seq y <= e_seq a)%N).
+  Proof.
+    induction l as [|e l IH]; intros acc a H; cbn [newest] in H.
+    - subst acc. split; [intros x []|]. intros y Hy. injection Hy as ->. apply N.le_refl.
+    - destruct (IH _ _ H) as [H1 H2]. split.
+      + intros x [<-|Hx] Hv; [|apply H1; assumption]. rewrite Hv in H2.
+        unfold newer in H2. destruct acc as [y|].
+        * destruct (e_seq y <? e_seq e)%N eqn:E; [apply H2; reflexivity|].
+          apply N.ltb_ge in E. specialize (H2 y eq_refl). lia.
+        * apply H2. reflexivity.
+      + intros y ->. destruct (Lsm.vis c k s e); [|apply H2; reflexivity].
+        unfold newer in H2. destruct (e_seq y <? e_seq e)%N eqn:E; [|apply H2; reflexivity].
+        apply N.ltb_lt in E. specialize (H2 e eq_refl). lia.
+  Qed.
+
+  Lemma newest_some_if_visible k s l x : In x l -> Lsm.vis c k s x = true -> newest c k s l None <> None.
+  Proof.
+    intros Hx Hv Hn. assert (G : forall l acc, newest c k s l acc = None -> acc = None /\ forall y, In y l -> Lsm.vis c k s y = false).
+    { clear. induction l as [|e l IH]; intros acc H; cbn [newest] in H; [split; [exact H|intros y []]|].
+      destruct (IH _ H) as [H1 H2]. destruct (Lsm.vis c k s e) eqn:E.
+      - unfold newer in H1. destruct acc as [y|]; [destruct (e_seq y <? e_seq e)%N; discriminate|discriminate].
+      - split; [exact H1|]. intros y [<-|Hy]; [exact E|apply H2; exact Hy]. }
+    destruct (G l None Hn) as [_ H]. rewrite (H x Hx) in Hv. discriminate.
+  Qed.
+
+  Variable st : lstate.
+  Hypothesis W : wf_state c p st.
+  Hypothesis Huniq : uniq (all_entries st).
+  Hypothesis Hkinds : Forall (fun e => e_kind e = keyTypeDel p \/ e_kind e = keyTypeVal p) (all_entries st).
+
+  Local Notation AE := (all_entries st).
+  Local Notation L := (lsm_entries c st).
+
+  Lemma kind_small e : In e AE -> (e_kind e < 256)%N.
+  Proof.
+    intros He. rewrite Forall_forall in Hkinds. destruct pok as (H1 & H2 & _ & H4 & _).
+    destruct (Hkinds e He) as [-> | ->]; lia.
+  Qed.
+
+  Lemma L_sorted : sorted_kv (icmp c) L.
+  Proof.
+    unfold lsm_entries. apply (merge_sorted ikey bytes (icmp c) (icmp_ord_ok c ok)).
+    cbn [concat]. rewrite app_nil_r, map_map. cbn [entry_kv fst]. exact (wf_state_ikeys_nodup c ok p pok st W).
+  Qed.
+
+  Lemma L_in x : In x L <-> exists a, In a AE /\ x = entry_kv a.
+  Proof.
+    unfold lsm_entries, merge_lists. rewrite (fold_insert_in ikey bytes (icmp c)). cbn [concat]. rewrite app_nil_r, in_map_iff.
+    split; intros (a & H1 & H2); exists a; auto.
+  Qed.
+
+  Lemma kv_seq a : In a AE -> ik_seq (fst (entry_kv a)) = e_seq a /\ ik_kind (fst (entry_kv a)) = e_kind a.
+  Proof.
+    intros Ha. pose proof (kind_small a Ha) as Hk. unfold entry_kv, e_ikey, ik_seq, ik_kind, pack. cbn [fst num].
+    split.
+    - rewrite N.div_add_l by discriminate. rewrite (N.div_small _ _ Hk). lia.
+    - rewrite N.add_comm, N.mod_add by discriminate. apply N.mod_small. exact Hk.
+  Qed.
+
+  (* the predicate of newest_visible on the image of a stored entry is Lsm.vis *)
+  Lemma nv_pred a u s : In a AE ->
+    (visible s (entry_kv a) && match cmp c (uk (fst (entry_kv a))) u with Eq => true | _ => false end) = Lsm.vis c u s a.
+  Proof.
+    intros Ha. unfold visible, Lsm.vis. rewrite (proj1 (kv_seq a Ha)). cbn [entry_kv fst e_ikey uk].
+    destruct (cmp c (e_uk a) u); [apply Bool.andb_true_r|apply Bool.andb_false_r|apply Bool.andb_false_r].
+  Qed.
+
+  (* the first visible entry of u in internal-key order is the visible entry with the largest sequence number *)
+  Lemma first_is_newest u s e a : newest_visible c s L u = Some e -> newest c u s AE None = Some a -> e = entry_kv a.
+  Proof.
+    intros Hf Hn.
+    destruct (find_sorted_min (icmp c) _ L e L_sorted Hf) as (He & Hg & Hmin).
+    apply L_in in He as (a0 & Ha0 & ->).
+    rewrite (nv_pred a0 u s Ha0) in Hg.
+    destruct (newest_in c u s AE None a Hn) as [Hx|[Ha Hva]]; [discriminate|].
+    destruct (newest_max u s AE None a Hn) as [Hmax _].
+    pose proof (Hmax a0 Ha0 Hg) as Hle.
+    assert (Hin : In (entry_kv a) L) by (apply L_in; exists a; auto).
+    assert (Hga : (visible s (entry_kv a) && match cmp c (uk (fst (entry_kv a))) u with Eq => true | _ => false end) = true)
+      by (rewrite (nv_pred a u s Ha); exact Hva).
+    apply (vis_true c ok) in Hg as [Hu0 Hs0]. apply (vis_true c ok) in Hva as [Hu Hs].
+    assert (Eseq : e_seq a0 = e_seq a).
+    { destruct (Hmin (entry_kv a) Hin Hga) as [E|Hlt].
+      - unfold entry_kv, e_ikey in E. injection E as _ E1 _.
+        unfold pack in E1. pose proof (kind_small a Ha). pose proof (kind_small a0 Ha0). nia.
+      - unfold entry_kv, e_ikey in Hlt. cbn [fst] in Hlt. rewrite Hu0, Hu in Hlt.
+        apply (icmp_same_ukey c ok) in Hlt. unfold pack in Hlt.
+        pose proof (kind_small a Ha). pose proof (kind_small a0 Ha0). nia. }
+    assert (Ea : a0 = a).
+    { unfold uniq in Huniq.
+      assert (Hk : keyseq a0 = keyseq a) by (unfold keyseq; rewrite Hu0, Hu, Eseq; reflexivity).
+      clear -Huniq Ha0 Ha Hk. induction (all_entries st) as [|x l IH]; [destruct Ha|].
+      cbn [map] in Huniq. apply NoDup_cons_iff in Huniq as [Hn Hnd].
+      destruct Ha0 as [->|Ha0]; destruct Ha as [->|Ha]; try reflexivity.
+      - exfalso. apply Hn. rewrite Hk. apply in_map. exact Ha.
+      - exfalso. apply Hn. rewrite <- Hk. apply in_map. exact Ha0.
+      - apply IH; assumption. }
+    rewrite Ea. reflexivity.
+  Qed.
+
+  Theorem view_agrees_with_get s u v :
+    In (u, v) (live_pairs c p s L) <-> lsm_get c p st u s = GFound v.
+  Proof.
+    rewrite (live_pairs_spec c ok p s L L_sorted u v), (get_correct c ok p pok st u s W).
+    split.
+    - intros (e & Hf & Hv & ->).
+      destruct (find_sorted_min (icmp c) _ L e L_sorted Hf) as (He & Hg & _).
+      apply L_in in He as (a0 & Ha0 & E0). subst e. rewrite (nv_pred a0 u s Ha0) in Hg.
+      destruct (newest c u s AE None) as [a|] eqn:En; [|exfalso; exact (newest_some_if_visible u s AE a0 Ha0 Hg En)].
+      pose proof (first_is_newest u s _ a Hf En) as E.
+      destruct (newest_in c u s AE None a En) as [Hx|[Ha _]]; [discriminate|].
+      cbn [group_res]. unfold res_of. unfold is_val in Hv. rewrite E in Hv. rewrite (proj2 (kv_seq a Ha)) in Hv.
+      apply N.eqb_eq in Hv. rewrite Hv.
+      destruct pok as (_ & _ & Hne & _). replace (keyTypeVal p =? keyTypeDel p)%N with false by (symmetry; apply N.eqb_neq; congruence).
+      rewrite E. reflexivity.
+    - intros Hg. destruct (newest c u s AE None) as [a|] eqn:En; [|discriminate].
+      cbn [group_res] in Hg. unfold res_of in Hg. destruct (e_kind a =? keyTypeDel p)%N eqn:Ek; [discriminate|].
+      injection Hg as <-.
+      destruct (newest_in c u s AE None a En) as [Hx|[Ha Hva]]; [discriminate|].
+      assert (Hval : e_kind a = keyTypeVal p).
+      { rewrite Forall_forall in Hkinds. destruct (Hkinds a Ha) as [E|E]; [|exact E]. apply N.eqb_neq in Ek. congruence. }
+      destruct (newest_visible c s L u) as [e|] eqn:Ef.
+      + pose proof (first_is_newest u s e a Ef En) as ->. exists (entry_kv a). split; [reflexivity|]. split; [|reflexivity].
+        unfold is_val. rewrite (proj2 (kv_seq a Ha)), Hval. apply N.eqb_refl.
+      + exfalso. unfold newest_visible in Ef.
+        assert (Hin : In (entry_kv a) L) by (apply L_in; exists a; auto).
+        pose proof (find_none_all _ _ Ef _ Hin) as Hf. cbv beta in Hf. rewrite (nv_pred a u s Ha) in Hf. congruence.
+  Qed.
+End ViewGet.
